@@ -115,21 +115,18 @@ func appliedEvents(cau chain.ApplyUpdate, walletAddress types.Address) (events [
 	}
 
 	for _, txn := range block.Transactions {
-		if !relevantV1Txn(txn, walletAddress) {
-			continue
-		}
+		// a siafund claim is paid to the input's claim address, which is
+		// not necessarily the owner of the siafunds
 		for _, si := range txn.SiafundInputs {
-			if si.UnlockConditions.UnlockHash() == walletAddress {
-				outputID := si.ParentID.ClaimOutputID()
-				sce, ok := siacoinElements[outputID]
-				if !ok {
-					panic("missing claim siacoin element")
-				}
-
+			outputID := si.ParentID.ClaimOutputID()
+			if sce, ok := siacoinElements[outputID]; ok && sce.SiacoinOutput.Address == walletAddress {
 				addEvent(types.Hash256(outputID), EventTypeSiafundClaim, EventPayout{
 					SiacoinElement: sce.Copy(),
 				}, sce.MaturityHeight)
 			}
+		}
+		if !relevantV1Txn(txn, walletAddress) {
+			continue
 		}
 
 		event := EventV1Transaction{
@@ -149,21 +146,16 @@ func appliedEvents(cau chain.ApplyUpdate, walletAddress types.Address) (events [
 	}
 
 	for _, txn := range block.V2Transactions() {
-		if !relevantV2Txn(txn, walletAddress) {
-			continue
-		}
 		for _, si := range txn.SiafundInputs {
-			if si.Parent.SiafundOutput.Address == walletAddress {
-				outputID := types.SiafundOutputID(si.Parent.ID).V2ClaimOutputID()
-				sce, ok := siacoinElements[outputID]
-				if !ok {
-					panic("missing claim siacoin element")
-				}
-
+			outputID := types.SiafundOutputID(si.Parent.ID).V2ClaimOutputID()
+			if sce, ok := siacoinElements[outputID]; ok && sce.SiacoinOutput.Address == walletAddress {
 				addEvent(types.Hash256(outputID), EventTypeSiafundClaim, EventPayout{
 					SiacoinElement: sce.Copy(),
 				}, sce.MaturityHeight)
 			}
+		}
+		if !relevantV2Txn(txn, walletAddress) {
+			continue
 		}
 
 		addEvent(types.Hash256(txn.ID()), EventTypeV2Transaction, EventV2Transaction(txn), index.Height)
